@@ -163,6 +163,19 @@ def well_formed_logical(n):
     return l is not None and r is not None and well_formed_logical(l) and well_formed_logical(r)
 
 
+def well_formed_any(n):
+    """an expression tree with every operand in place: terms without children, NOT / LEN / FLOOR / CEIL with a left
+    operand, SUM / AVG with one or two operands, every other operator with two"""
+    d, l, r = n
+    if d[0] != "op":
+        return l is None and r is None
+    if d[1] in ("NOT", "LEN", "FLOOR", "CEIL"):
+        return l is not None and r is None and well_formed_any(l)
+    if d[1] in ("SUM", "AVG"):
+        return l is not None and well_formed_any(l) and (r is None or well_formed_any(r))
+    return l is not None and r is not None and well_formed_any(l) and well_formed_any(r)
+
+
 def oracle_c18(n, reply, after, documented=None):
     fails = []
     q = {x[0]: x[1] for x in reply[1:]}
@@ -192,6 +205,10 @@ def oracle_c18(n, reply, after, documented=None):
     else:
         if val("aggregation") != Sym("true"):
             fails.append(("aggregation", str(q["aggregation"])))
+    if well_formed_any(n) and sorted(q["features"]) != names:
+        # "the features reported for a constraint are exactly the names occurring in it": every operator with its
+        # operands in place (unary and one-operand aggregates on the left, the others on both sides)
+        fails.append(("features-any-operator", f"{q['features']} != {names}"))
     req, exc, simple, cplx = val("requires"), val("excludes"), val("simple"), val("complex")
     pseudo, strict = val("pseudo"), val("strict")
     t = Sym("true")
@@ -320,6 +337,12 @@ def cases(ctx):
         yield "case-twins", sh, None
         yield "case-twins", rename(sh, {"Wifi": "wifi", "Net": "net", "radio": "Radio"}), None
         yield "case-twins", rename(sh, {"Wifi": "WIFI", "Net": "NET", "radio": "RADIO"}), None
+    # aggregates with the optional second operand (the scoping feature), alone and nested
+    for agg in ("SUM", "AVG"):
+        two = OP(agg, T("price"), T("Storage"))
+        for shape in (two, OP("GREATER", two, (("i", 6), None, None)), OP("IMPLIES", T("Cpu"), OP("LOWER", two, (("i", 5), None, None))),
+                      OP("ADD", two, OP(agg, T("size"))), OP("NOT", OP("EQUALS", OP(agg, T("cost"), T("Disk")), T("Cpu.cost")))):
+            yield "aggregate-two-operands", shape, None
     # arithmetic / aggregate / odd terms for the kind predicates
     for i in range(200 if tier == "quick" else 2000):
         yield "arith", rand_arith(g), None
@@ -332,7 +355,10 @@ def rand_arith(g, depth=3):
     rng = g.rng
     if depth == 0 or rng.random() < 0.3:
         k = rng.randrange(5)
-        return [T("A"), T("B.price"), (("i", rng.choice([0, 1, -3, 42])), None, None),
+        # several distinct names: a feature that occurs only in one operand (the optional second operand of
+        # an aggregate included) must show in get_features
+        return [T(rng.choice(["A", "Storage", "Cpu"])), T(rng.choice(["B.price", "D.size", "E.cost"])),
+                (("i", rng.choice([0, 1, -3, 42])), None, None),
                 (("fl", rng.choice([0.5, 2.25, -1.5])), None, None), T("'str lit'")][k]
     op = rng.choice(gen.LOGICAL + gen.COMPARISON + gen.ARITH + ["SUM", "AVG", "LEN", "FLOOR", "CEIL"])
     g.count("ctc_op", op)
